@@ -307,6 +307,21 @@ Section AmapFacts.
     - rewrite am_get_del_same by (apply am_set_sorted; exact Hs). symmetry. exact Hn.
     - rewrite am_get_del_other, am_get_set_other by exact N. reflexivity.
   Qed.
+
+  (* a deletion and an update of two different keys commute: writing the new
+     branch before removing the old one ends in the same map as the other order *)
+  Lemma am_del_set_comm : forall m k1 v k2, am_sorted m -> k1 <> k2 ->
+    am_del (am_set m k1 v) k2 = am_set (am_del m k2) k1 v.
+  Proof.
+    intros m k1 v k2 Hs Hne.
+    apply am_ext; [apply am_del_sorted, am_set_sorted; exact Hs | apply am_set_sorted, am_del_sorted; exact Hs |].
+    intro k. destruct (bytes_eq_dec k k2) as [->|N2].
+    - rewrite am_get_del_same by (apply am_set_sorted; exact Hs).
+      rewrite am_get_set_other by congruence. rewrite am_get_del_same by exact Hs. reflexivity.
+    - rewrite am_get_del_other by exact N2. destruct (bytes_eq_dec k k1) as [->|N1].
+      + rewrite !am_get_set_same. reflexivity.
+      + rewrite !am_get_set_other by exact N1. rewrite am_get_del_other by exact N2. reflexivity.
+  Qed.
 End AmapFacts.
 
 
@@ -608,7 +623,7 @@ Definition rename_msg (prev new : bytes) : bytes :=
   str "renamed refs/heads/"%string ++ prev ++ str " to refs/heads/"%string ++ new.
 
 Definition rename_trace1 (e : env) (c : ctx) (w : world) (new hid : bytes) : list effect :=
-  [ERenameRef (w_head w) new; ESetHead new;
+  [ESetRef new hid; ESetHead new; EDelRef (w_head w);
    EAppendHlog (log_rec e c (Some hid) None RBranch (rename_msg (w_head w) new));
    EAppendHlog (log_rec e c None (Some hid) RBranch (rename_msg (w_head w) new))].
 
@@ -1131,12 +1146,15 @@ Qed.
 Lemma cover_rename : forall (refs blogs : amap bytes) p n id l1 l2,
   am_sorted refs ->
   (forall k, am_mem refs k = true -> am_mem blogs k = true) ->
-  forall k, am_mem (am_set (am_del refs p) n id) k = true ->
+  forall k, am_mem (am_del (am_set refs n id) p) k = true ->
             am_mem (am_set (am_set (am_del blogs p) n l1) n l2) k = true.
 Proof.
-  intros refs blogs p n id l1 l2 Hs Hc k Hk. rewrite am_mem_set in Hk. rewrite !am_mem_set.
-  destruct (bytes_eqb n k); [reflexivity|]. cbn [orb] in Hk |- *.
-  apply (cover_del_del refs blogs p Hs Hc). exact Hk.
+  intros refs blogs p n id l1 l2 Hs Hc k Hk. rewrite !am_mem_set.
+  destruct (bytes_eqb n k) eqn:En; [reflexivity|]. cbn [orb].
+  rewrite am_mem_del in Hk by (apply am_set_sorted; exact Hs).
+  apply andb_true_iff in Hk. destruct Hk as [Hne Hk]. apply negb_true_iff, bytes_eqb_neq in Hne.
+  rewrite am_mem_set, En in Hk. cbn [orb] in Hk.
+  rewrite am_mem_del_other by congruence. apply Hc. exact Hk.
 Qed.
 
 Lemma cmd_branch_keeps : forall e c args lst rn dl w, Inv2 w -> keeps w (cmd_branch e c args lst rn dl).
@@ -1153,11 +1171,8 @@ Proof.
   intros out w2 Hi2. apply ffat_bind with (R := fun _ => Inv2).
   { (* rename *)
     fsteps; try assumption.
-    - match goal with H : am_mem (w_refs w2) (w_head w2) = true |- _ =>
-        apply am_mem_get in H; destruct H as [id Hid] end.
-      destruct Hi2 as [Hs Hc]; split; unfold refs_sorted, blogs_cover_refs;
-        cbn [apply_effect]; rewrite Hid; wsimpl.
-      + apply am_set_sorted, am_del_sorted. exact Hs.
+    - destruct Hi2 as [Hs Hc]; split; unfold refs_sorted, blogs_cover_refs; wsimpl.
+      + apply am_del_sorted, am_set_sorted. exact Hs.
       + apply cover_rename; assumption.
     - (* the late log check cannot fail *)
       match goal with
@@ -1303,7 +1318,19 @@ Definition a_delete (name : bytes) (s : astate) : option astate :=
   if negb (bytes_eqb name (fst s)) && am_mem (snd s) name
   then Some (fst s, am_del (snd s) name) else None.
 
+(* the new name is bound first and the old one removed afterwards, in the
+   order the program writes the two branch files *)
 Definition a_rename (new : bytes) (s : astate) : option astate :=
+  match am_get (snd s) (fst s) with
+  | Some hid =>
+      if negb (am_mem (snd s) new) && valid_branch_name new
+      then Some (new, am_del (am_set (snd s) new hid) (fst s)) else None
+  | None => None
+  end.
+
+(* the same machine with the two updates in the other order (what the single
+   rename effect [ERenameRef] computes): on a sorted map they agree *)
+Definition a_rename_del_first (new : bytes) (s : astate) : option astate :=
   match am_get (snd s) (fst s) with
   | Some hid =>
       if negb (am_mem (snd s) new) && valid_branch_name new
@@ -1432,6 +1459,7 @@ Proof.
   destruct (valid_branch_name new); [|discriminate H]. injection H as <-. cbn [fst snd].
   assert (Hne : new <> cur).
   { intro Heq. subst new. unfold am_mem in Em. rewrite Ecur in Em. discriminate Em. }
+  rewrite (am_del_set_comm br new hid cur Hs Hne).
   split; [reflexivity|]. split; [exact Hne|].
   split; [apply am_get_set_same|].
   split; [rewrite am_get_set_other by congruence; apply am_get_del_same; exact Hs|].
@@ -1439,6 +1467,28 @@ Proof.
   rewrite am_length_set_new.
   - apply am_length_del. unfold am_mem. rewrite Ecur. reflexivity.
   - rewrite am_mem_del_other by exact Hne. exact Em.
+Qed.
+
+Theorem a_rename_order_irrelevant : forall new s,
+  am_sorted (snd s) -> a_rename new s = a_rename_del_first new s.
+Proof.
+  intros new [cur br] Hs. unfold a_rename, a_rename_del_first. cbn [fst snd] in Hs |- *.
+  destruct (am_get br cur) as [hid|] eqn:Ecur; [|reflexivity].
+  destruct (am_mem br new) eqn:Em; cbn [negb andb]; [reflexivity|].
+  destruct (valid_branch_name new); [|reflexivity].
+  rewrite am_del_set_comm; [reflexivity | exact Hs |].
+  intro Heq. subst new. unfold am_mem in Em. rewrite Ecur in Em. discriminate Em.
+Qed.
+
+(* the one-step rename effect and the write / re-point / remove sequence that
+   replaced it end with the same branch map *)
+Lemma rename_effect_agrees : forall w old new id,
+  refs_sorted w -> am_get (w_refs w) old = Some id -> new <> old ->
+  w_refs (apply_effects [ESetRef new id; ESetHead new; EDelRef old] w)
+  = w_refs (apply_effect (ERenameRef old new) w).
+Proof.
+  intros w old new id Hs Hg Hne. cbn [apply_effects fold_left]. autorewrite with wfields.
+  rewrite Hg. apply am_del_set_comm; assumption.
 Qed.
 
 Theorem a_switch_spec : forall name s s',
@@ -1564,7 +1614,7 @@ Proof.
     destruct (negb (am_mem (w_refs w) new) && valid_branch_name new);
       cbn [fst snd ms_w ms_trace outcome_of app] in Hstep; inj3 Hstep.
     + split; [reflexivity|]. unfold rename_trace, rename_trace1, rename_trace2. cbn [app].
-      split; [|frame_tac]. autorewrite with wfields. rewrite Hg. reflexivity.
+      split; [|frame_tac]. autorewrite with wfields. reflexivity.
     + auto.
   - rewrite Hh. cbn [fst snd ms_w ms_trace outcome_of] in Hstep. inj3 Hstep. auto.
 Qed.
@@ -1740,7 +1790,7 @@ Definition branch_family (c : cmd) : Prop :=
 
 (* The guards and lookups that can fail all come before the first write, with
    two exceptions the model has: the log-existence check of [--rename] /
-   [--delete] (after [ERenameRef] / [EDelRef]) and the reload of the commit in
+   [--delete] (after the branch files were written / removed) and the reload of the commit in
    [Head.Update] (after [ESetHead]).  The first cannot fail when every branch
    has its log ([blogs_cover_refs], an invariant of every history), the
    second cannot when every branch names a commit ([refs_commits_ok], first
@@ -2251,6 +2301,8 @@ Print Assumptions branch_create_ok.
 Print Assumptions a_branch_spec.
 Print Assumptions a_delete_spec.
 Print Assumptions a_rename_spec.
+Print Assumptions a_rename_order_irrelevant.
+Print Assumptions rename_effect_agrees.
 Print Assumptions a_update_ref_spec.
 Print Assumptions refused_branch_ops_unchanged.
 Print Assumptions refused_branch_ops_unchanged_reachable.
